@@ -466,6 +466,12 @@ def _sort_adapter(rep, R, facts, d, b, call):
     for (ka, kb), r in answers.items():
         if (kb, ka) in answers and flip.get(r) != answers[(kb, ka)]:
             bad.append(f'a {ka} entry against a {kb} entry is {r}, but a {kb} entry against a {ka} entry is {answers[(kb, ka)]}')
+    # a total order: an entry the caller's comparison ranks (it is asked about two of its kind) cannot be Equal to an entry of a kind that is never ranked —
+    # Equal is transitive, so two ranked entries on either side of such an entry would have to be Equal to each other
+    for (ka, kb), r in answers.items():
+        if r == 'Equal' and ka != kb and (answers.get((ka, ka)) == 'asks') != (answers.get((kb, kb)) == 'asks'):
+            bad.append(f'a {ka} entry and a {kb} entry compare Equal although only one of the two kinds is ranked by the caller\'s comparison: the answers are no total order and a stable sort '
+                       f'leaves ranked entries on either side of such an entry unsorted')
     if not n_cmp:
         bad.append('the caller\'s comparison is never asked')
     rep.check(R, f'{d}|adapter', not bad, f'{n_cmp} of {len(answers)} entry-kind pairs ask the caller\'s comparison with (key1, value1, key2, value2); the rest is antisymmetric',
